@@ -40,3 +40,16 @@ Proof.
   destruct (C01_duplicates_only_by_retry_proof cfg ls s Hr) as [H _]. rewrite <- H.
   apply log_is_journal_refl.
 Qed.
+
+(* the broker verdict: only code 0 is success, whatever the sign or size of the code *)
+From Coq Require Import ZArith.
+Lemma code_verdict_sign_independent : forall c : Z,
+  (code_err c = None <-> c = 0%Z) /\
+  (r_seen (reaction_of_code c) = None <-> c = 0%Z) /\
+  (c <> 0%Z -> r_applied (reaction_of_code c) = false /\ exists e, r_seen (reaction_of_code c) = Some e).
+Proof.
+  intros c. unfold reaction_of_code, code_err, produce_error.
+  destruct (Z.eqb c 0) eqn:E.
+  - apply Z.eqb_eq in E. subst. simpl. repeat split; auto; intros; congruence.
+  - apply Z.eqb_neq in E. simpl. repeat split; intros; try congruence; eauto.
+Qed.
